@@ -1,5 +1,6 @@
 (* Model of the format-spec part of to_str / __format__ (ansi_string.py:632-700, 751-776):
-   hand-written recognisers for the four regular expressions, valid for specs without newline. *)
+   hand-written recognisers for the four regular expressions (as repaired, F29 / F30: the expressions match the whole
+   spec and '.' matches every character, so a newline is a character like any other). *)
 From AS Require Import Base Effects.
 From AS.Model Require Import Sgr Table Ops Render Scrub Parse.
 
